@@ -13,7 +13,7 @@ EdDSA   EDP <params…>                                  parameters = table, bas
         EDPKL <bytes> / EDSKL <bytes>                   PublicKey / PrivateKey.SetBytes on a buffer longer than the object: `n x y re-encoding`
         EDSGN <hash> <sk> <nonce> <msg> <oin> <oout>    PrivateKey.Sign then Verify under the key of <sk>: `signature-bytes verdict`; the model
                                                         signs with the nonce on the line (Go derives the same one from randSrc and msg)
-ECDSA   ECP, ECV, ECVB (= ECV; triples built backwards from a chosen R), ECVINF (model refuses the key "infinity"), ECPK, ECPKN, ECSIG, ECSK, ECH (HashToInt), ECR (RecoverFrom)
+ECDSA   ECP, ECV, ECVB (= ECV; triples built backwards from a chosen R), ECVINF (model refuses the key "infinity"), ECVOC (= ECV; keys off the curve through the exported field: verifyPK refuses them), ECPK, ECPKN, ECSIG, ECSK, ECH (HashToInt, the Go rule), ECHF (HashToInt against the FIPS 186-4 leftmost-bits rule), ECR (RecoverFrom)
         ECPKL <bytes>                                   PublicKey.SetBytes on a buffer longer than the key: `n x y re-encoding`
         ECSGN <hash> <sk> <entropy> <k> <msg> <oin> <oout>   Sign (crypto/rand yields <entropy>, which makes the nonce <k>) then Verify: `signature-bytes verdict`
         INV <q> <a>                                     the Euclid inverse of the model, and whether it equals the Fermat one
@@ -159,7 +159,7 @@ def ecScheme (P : ECParams) : SigScript.Scheme where
   sign H k nonce m := P.sign P.smulFast H k.2 (ecNonceTok nonce) m
   signRec H k nonce m :=
     (P.signRecover P.smulFast H k.2 (ecNonceTok nonce) m).map (fun (v, r, s) => toHex v ++ ":" ++ toHex r ++ ":" ++ toHex s)
-  verify H Q sig m := if Q.isNone then .error .pkInfinity else P.verify P.smulFast H Q sig m
+  verify H Q sig m := P.verifyPK P.smulFast H Q sig m
   recover d v r s := P.recover P.smulFast d v r s
 
 def handleEc (P : ECParams) (op : String) (a : List String) : String :=
@@ -170,19 +170,19 @@ def handleEc (P : ECParams) (op : String) (a : List String) : String :=
     else if !(P.E.onCurve P.G) then "base-off-curve"
     else if !(P.smulFast (Int.ofNat P.n) P.G).isNone then "order-wrong"
     else "ok"
-  | "ECV", [h, qx, qy, sig, msg, oin, oout] | "ECVB", [h, qx, qy, sig, msg, oin, oout] =>
+  | "ECV", [h, qx, qy, sig, msg, oin, oout] | "ECVB", [h, qx, qy, sig, msg, oin, oout] | "ECVOC", [h, qx, qy, sig, msg, oin, oout] =>
     match mkHash h P.mimcSize P.mimcQ oin oout with
     | none => "bad-op"
     | some H =>
       let Q := ECParams.ofAffine (parseHexD qx) (parseHexD qy)
       if Q.isNone then "err:pkinfinity" else
-      verdict (P.verify P.smulFast H Q (parseBytes sig) (parseBytes msg))
+      verdict (P.verifyPK P.smulFast H Q (parseBytes sig) (parseBytes msg))
   | "ECVINF", [h, qx, qy, sig, msg, oin, oout] =>
     let Q := ECParams.ofAffine (parseHexD qx) (parseHexD qy)
     if Q.isNone then "err:pkinfinity" else
     match mkHash h P.mimcSize P.mimcQ oin oout with
     | none => "bad-op"
-    | some H => verdict (P.verify P.smulFast H Q (parseBytes sig) (parseBytes msg))
+    | some H => verdict (P.verifyPK P.smulFast H Q (parseBytes sig) (parseBytes msg))
   | "ECPK", [b] | "ECPKT", [b] =>
     match P.pubParse P.smulFast (parseBytes b) with
     | .error e => e.str
@@ -220,6 +220,7 @@ def handleEc (P : ECParams) (op : String) (a : List String) : String :=
     let R := P.smul k Q
     showAff R ++ " " ++ boolStr (P.E.beq (P.smulFast k Q) R)
   | "ECH", [b] => toHex (P.hashToInt (parseBytes b))
+  | "ECHF", [b] => toHex (P.hashToIntFIPS (parseBytes b))
   | "ECR", [d, v, r, s, qx, qy] =>
     match P.recover P.smulFast (parseBytes d) (parseHexD v) (parseInt r) (parseInt s) with
     | .error e => e.str
